@@ -92,6 +92,20 @@ func (d *c14Drv) bodyFile(name string) string {
 		}
 		return d.bodyDir + "/ln/../" + base
 	}
+	if rel, ok := strings.CutPrefix(name, "rel:"); ok {
+		// a path relative to the working directory (the driver runs inside <bodies>), as written: also one whose own first
+		// character is the marker, next to a file of the same name without it
+		p := filepath.Join(d.bodyDir, rel)
+		if _, err := os.Stat(p); err != nil {
+			must(os.MkdirAll(filepath.Dir(p), 0o755))
+			must(os.WriteFile(p, []byte(bodyContentOf(name)), 0o644))
+			if bare := strings.TrimLeft(rel, "@"); bare != rel {
+				must(os.MkdirAll(filepath.Dir(filepath.Join(d.bodyDir, bare)), 0o755))
+				must(os.WriteFile(filepath.Join(d.bodyDir, bare), []byte("another file: "+bare), 0o644))
+			}
+		}
+		return rel
+	}
 	p := filepath.Join(d.bodyDir, name)
 	if _, err := os.Stat(p); err != nil {
 		must(os.WriteFile(p, []byte(bodyContentOf(name)), 0o644))
@@ -151,7 +165,8 @@ func (d *c14Drv) concretise(kinds []string, defKeys []string) []tline {
 			// no blank between key and colon: "KEY : v" with an upper-case key reads as a request line (grammar ambiguity, out of domain)
 			ln.text = strings.Repeat(" ", d.r.Intn(2)) + ln.A + ":" + strings.Repeat(" ", d.r.Intn(3)) + ln.B + strings.Repeat(" ", d.r.Intn(2))
 		case "BODY":
-			ln.A = []string{"b0.txt", "b1.txt", "b2.txt", "empty.txt", "run-12:30.bin", "k:v", "far-b0.txt", "far-b1.txt"}[d.r.Intn(8)] // a path may contain a colon, or lead through a symbolic link
+			ln.A = []string{"b0.txt", "b1.txt", "b2.txt", "empty.txt", "run-12:30.bin", "k:v", "far-b0.txt", "far-b1.txt",
+				"rel:r0.txt", "rel:./r1.txt", "rel:@latest.json", "rel:@acme/fixtures/order.json"}[d.r.Intn(12)] // a path may contain a colon, lead through a symbolic link, be relative, or start with the marker itself
 			ln.B = bodyContentOf(ln.A)
 			ln.text = "@" + d.bodyFile(ln.A)
 		case "COM":
@@ -410,6 +425,7 @@ func TestDrv_C14(t *testing.T) {
 	d := &c14Drv{tr: NewTracer(filepath.Join(dir, "c14.ndjson")), r: newRand(14), dir: dir, bodyDir: filepath.Join(dir, "bodies")}
 	defer d.tr.Close()
 	must(os.MkdirAll(d.bodyDir, 0o755))
+	t.Chdir(d.bodyDir) // relative body paths are relative to here
 	// (G) every well-formed line-kind sequence exported by TLC, with and without spare capacity in
 	// the default slices, with and without a trailing newline, lazily and eagerly
 	tlc := 0
